@@ -152,46 +152,156 @@ func writeFiles(dir string, files map[string]string) error {
 	return nil
 }
 
+// ---- input shapes and workspace layouts ----
+
+// shape is the form of the input reference a command is given.
+type shape struct {
+	ID     string // dir | file-a | file-a+ | path-a | file-b | file-b+ | path-b
+	Kind   string // dir | file | pkgfiles (file reference with include_package_files=true) | path (directory + --path)
+	Target string // "" | a | b: the file (path: its directory) the reference names
+}
+
+var shapes = []shape{
+	{ID: "dir", Kind: "dir"},
+	{ID: "file-a", Kind: "file", Target: "a"},
+	{ID: "file-a+", Kind: "pkgfiles", Target: "a"},
+	{ID: "path-a", Kind: "path", Target: "a"},
+	{ID: "file-b", Kind: "file", Target: "b"},
+	{ID: "file-b+", Kind: "pkgfiles", Target: "b"},
+	{ID: "path-b", Kind: "path", Target: "b"},
+}
+
+// layouts: "single" is one module at the workspace root; "multi" is a v2 workspace of two modules
+// (moda holds a/v1/*, modb holds b/v1/*; b.proto imports a.proto across the module boundary).
+var layouts = []string{"single", "multi"}
+
+func physical(layout, p string) string {
+	if layout == "multi" && p != "buf.yaml" {
+		return "mod" + p[:1] + "/" + p
+	}
+	return p
+}
+
+func layoutFiles(layout string, files map[string]string) map[string]string {
+	out := make(map[string]string, len(files))
+	for p, text := range files {
+		if p == "buf.yaml" && layout == "multi" {
+			text = strings.Replace(text, "version: v2\n", "version: v2\nmodules:\n  - path: moda\n  - path: modb\n", 1)
+		}
+		out[physical(layout, p)] = text
+	}
+	return out
+}
+
+// input returns the positional input and the extra flags that express the shape for the workspace at root.
+func (sh shape) input(layout, root string) (in string, extra []string) {
+	switch sh.Kind {
+	case "dir":
+		return root, nil
+	case "file":
+		return filepath.Join(root, physical(layout, logicalPath[sh.Target])), nil
+	case "pkgfiles":
+		return filepath.Join(root, physical(layout, logicalPath[sh.Target])) + "#include_package_files=true", nil
+	case "path":
+		return root, []string{"--path", filepath.Join(root, filepath.Dir(physical(layout, logicalPath[sh.Target])))}
+	}
+	panic(sh.Kind)
+}
+
+// scope of a shape, as sets of plant file keys (a, a2, b):
+//
+//	targets   the files the reference selects: what lint, breaking and format work on
+//	compiled  targets plus what they import (b.proto imports a.proto): what the compiler reads
+//	scanned   for include_package_files=true, every file of the target's module has its package
+//	          statement read to decide whether it belongs to the target's package
+func (sh shape) scope(layout string) (targets, compiled, scanned map[string]bool) {
+	switch {
+	case sh.Kind == "dir":
+		targets = map[string]bool{"a": true, "a2": true, "b": true}
+	case sh.Target == "a" && sh.Kind == "path":
+		targets = map[string]bool{"a": true, "a2": true}
+	case sh.Target == "a":
+		targets = map[string]bool{"a": true}
+	default:
+		targets = map[string]bool{"b": true}
+	}
+	compiled = map[string]bool{}
+	for f := range targets {
+		compiled[f] = true
+	}
+	if targets["b"] {
+		compiled["a"] = true
+	}
+	scanned = map[string]bool{}
+	if sh.Kind == "pkgfiles" {
+		switch {
+		case layout == "single":
+			scanned = map[string]bool{"a": true, "a2": true, "b": true}
+		case sh.Target == "a":
+			scanned = map[string]bool{"a": true, "a2": true}
+		default:
+			scanned = map[string]bool{"b": true}
+		}
+	}
+	return targets, compiled, scanned
+}
+
 // expectation of the plant model for one command
 type expectation struct {
 	Exit        int      // 0 | 100 | -1 (= any non-zero: `buf format` on a file it cannot parse)
 	CompileOnly bool     // every annotation must have type COMPILE
 	Rules       []string // else: sorted multiset of expected rule IDs (nil when Exit != 100)
+	ViaScanOnly bool     // the only source problem in scope is one outside what the compiler reads (package scan)
 }
 
-func expect(set []int, cmd string) expectation {
-	var compile, syntax, unformatted bool
+func isFormatCommand(cmd string) bool { return strings.HasPrefix(cmd, "format") }
+
+func expect(set []int, cmd string, sh shape, layout string) expectation {
+	targets, compiled, scanned := sh.scope(layout)
+	var compile, viaCompiler, syntax, unformatted bool
 	var lintRules, breakingRules []string
 	for _, i := range set {
 		p := plants[i]
 		switch p.Kind {
 		case "compile":
-			compile = true
-			syntax = syntax || p.Syntax
+			if compiled[p.File] {
+				compile, viaCompiler = true, true
+			} else if p.Prescan && scanned[p.File] {
+				compile = true
+			}
+			if p.Syntax && targets[p.File] {
+				syntax = true
+			}
 		case "lint":
-			lintRules = append(lintRules, p.Rule)
+			if targets[p.File] {
+				lintRules = append(lintRules, p.Rule)
+			}
 		case "breaking":
-			breakingRules = append(breakingRules, p.Rule)
+			if p.NoFile && sh.Kind == "dir" || !p.NoFile && targets[p.File] {
+				breakingRules = append(breakingRules, p.Rule)
+			}
 		case "unformatted":
-			unformatted = true
+			if targets[p.File] {
+				unformatted = true
+			}
 		}
 	}
 	sort.Strings(lintRules)
 	sort.Strings(breakingRules)
-	switch cmd {
-	case "build", "lint", "breaking":
+	switch {
+	case cmd == "build" || cmd == "build-o" || cmd == "lint" || cmd == "breaking":
 		if compile {
-			return expectation{Exit: 100, CompileOnly: true}
+			return expectation{Exit: 100, CompileOnly: true, ViaScanOnly: !viaCompiler}
 		}
 		rules := lintRules
 		if cmd == "breaking" {
 			rules = breakingRules
 		}
-		if cmd == "build" || len(rules) == 0 {
+		if cmd == "build" || cmd == "build-o" || len(rules) == 0 {
 			return expectation{Exit: 0}
 		}
 		return expectation{Exit: 100, Rules: rules}
-	case "format", "format-d":
+	case isFormatCommand(cmd):
 		if syntax {
 			return expectation{Exit: -1}
 		}
@@ -206,6 +316,8 @@ func expect(set []int, cmd string) expectation {
 type cliCase struct {
 	Workspace []string          `json:"planted"`
 	Dir       string            `json:"dir_name"`
+	Shape     string            `json:"input_shape,omitempty"`
+	Layout    string            `json:"layout,omitempty"`
 	Files     map[string]string `json:"files,omitempty"`
 	Command   string            `json:"command"`
 	Args      []string          `json:"args"`
@@ -227,8 +339,13 @@ type cliStats struct {
 	byPlanted                                 [4]atomic.Int64
 	mu                                        sync.Mutex
 	perCmdFormat                              map[string]int
+	perShapeLayout                            map[string]int
 	f7, timedOut                              atomic.Int64
 	lineGrammarSkipped                        atomic.Int64
+	viaScanOnly100                            atomic.Int64 // runs that exit 100 for a problem only the package scan can see
+	formatRewrote, formatWroteOutput          atomic.Int64 // -w runs that changed the sources / -o runs whose output differs from the sources
+	formatModesCompared                       atomic.Int64
+	buildOutputWritten                        atomic.Int64
 }
 
 func (st *cliStats) count(key string) {
@@ -240,12 +357,23 @@ func (st *cliStats) count(key string) {
 	st.mu.Unlock()
 }
 
+func (st *cliStats) countShape(key string) {
+	st.mu.Lock()
+	if st.perShapeLayout == nil {
+		st.perShapeLayout = map[string]int{}
+	}
+	st.perShapeLayout[key]++
+	st.mu.Unlock()
+}
+
 // diffStamp matches the temp-file mtime that the external diff prints after the file name in ---/+++ headers.
 var diffStamp = regexp.MustCompile(`(?m)\t[0-9]{4}-[0-9]{2}-[0-9]{2} [0-9]{2}:[0-9]{2}:[0-9]{2}\.[0-9]+ [+-][0-9]{4}$`)
 
 type wsJob struct {
 	set     []int
 	dirName string
+	shape   shape
+	layout  string
 }
 
 func plantIDs(set []int) []string {
@@ -256,23 +384,54 @@ func plantIDs(set []int) []string {
 	return ids
 }
 
-func argsFor(cmd, dir, against, format string) []string {
+// inputSpec is what a command line is built from: the input, the flags that belong to the input's shape,
+// the --against input and the location -o writes to.
+type inputSpec struct {
+	in      string
+	extra   []string
+	against string
+	out     string
+}
+
+func argsForSpec(cmd string, sp inputSpec, format string) []string {
+	with := func(name string, flags ...string) []string {
+		args := append([]string{name, sp.in}, sp.extra...)
+		args = append(args, flags...)
+		return append(args, "--error-format", format)
+	}
 	switch cmd {
 	case "build":
-		return []string{"build", dir, "--error-format", format}
+		return with("build")
+	case "build-o":
+		return with("build", "-o", sp.out)
 	case "lint":
-		return []string{"lint", dir, "--error-format", format}
+		return with("lint")
 	case "breaking":
-		return []string{"breaking", dir, "--against", against, "--error-format", format}
+		return with("breaking", "--against", sp.against)
 	case "format":
-		return []string{"format", dir, "--exit-code", "--error-format", format}
+		return with("format", "--exit-code")
 	case "format-d":
-		return []string{"format", dir, "--exit-code", "-d", "--error-format", format}
+		return with("format", "--exit-code", "-d")
+	case "format-w":
+		return with("format", "--exit-code", "-w")
+	case "format-dw":
+		return with("format", "--exit-code", "-d", "-w")
+	case "format-o":
+		return with("format", "--exit-code", "-o", sp.out)
+	case "format-do":
+		return with("format", "--exit-code", "-d", "-o", sp.out)
 	}
 	panic(cmd)
 }
 
+func argsFor(cmd, dir, against, format string) []string {
+	return argsForSpec(cmd, inputSpec{in: dir, against: against, out: filepath.Join(filepath.Dir(dir), "out-"+cmd)}, format)
+}
+
+// commands are the commands of the property with the switches that select where `buf format` and `buf build`
+// send their result (stdout, a diff, in place, an output location): the verdict must not depend on them.
 var commands = []string{"build", "lint", "breaking", "format", "format-d"}
+var outputModeCommands = []string{"build-o", "format-w", "format-dw", "format-o", "format-do"}
 
 // runBuf runs the in-process CLI with buf's own --timeout switched off (0 = no timeout, see the global flag's
 // help): the default of 2m would make the verdict depend on the load of the machine. timedOut reports a run
@@ -303,58 +462,149 @@ func truthFromJSON(ps []parsed) []ann {
 	return out
 }
 
+// formatRun is one `buf format` run together with what it did outside its standard streams.
+type formatRun struct {
+	res bufx.CLIResult
+	// after: for -w the target sources after the run, for -o what was written to the output location
+	// (both concatenated in path order); unused for the other modes
+	after string
+}
+
 // runWorkspace runs every command x format on one workspace and checks all oracles.
 func runWorkspace(ctx context.Context, r *evid.Run, st *cliStats, scratch string, n int, job wsJob) {
-	files, ok := render(job.set)
+	logical, ok := render(job.set)
 	if !ok {
 		return
 	}
+	sh, layout := job.shape, job.layout
+	if sh.Target == "b" {
+		if _, ok := logical[logicalPath["b"]]; !ok {
+			return // the reference would name a file the planted set deletes
+		}
+	}
+	files := layoutFiles(layout, logical)
 	root := filepath.Join(scratch, fmt.Sprintf("w%d", n))
 	dir := filepath.Join(root, job.dirName)
 	against := filepath.Join(root, "old-"+job.dirName)
-	baseFiles, _ := render(nil)
+	baseLogical, _ := render(nil)
 	if err := writeFiles(dir, files); err != nil {
 		r.Incomplete("scratch: " + err.Error())
 		return
 	}
-	if err := writeFiles(against, baseFiles); err != nil {
+	if err := writeFiles(against, layoutFiles(layout, baseLogical)); err != nil {
 		r.Incomplete("scratch: " + err.Error())
 		return
 	}
 	defer os.RemoveAll(root)
 	st.workspaces.Add(1)
 	st.byPlanted[len(job.set)].Add(1)
+	st.countShape(sh.ID + "/" + layout)
 	ids := plantIDs(job.set)
 	label := strings.Join(ids, "+")
 	if label == "" {
 		label = "clean"
 	}
-	r.Distinct("B|" + job.dirName + "|" + label)
+	base := sh.Kind == "dir" && layout == "single"
+	if base {
+		r.Distinct("B|" + job.dirName + "|" + label)
+	} else {
+		r.Distinct("B|" + job.dirName + "|" + sh.ID + "|" + layout + "|" + label)
+	}
 	newlineDir := strings.Contains(job.dirName, "\n")
 
-	for _, cmd := range commands {
-		want := expect(job.set, cmd)
+	var sp inputSpec
+	sp.in, sp.extra = sh.input(layout, dir)
+	sp.against, _ = sh.input(layout, against)
+	targets, _, _ := sh.scope(layout)
+	// the target .proto files in path order (module-relative and physical order coincide)
+	var targetLogical []string
+	for key, p := range logicalPath {
+		if _, ok := logical[p]; ok && targets[key] {
+			targetLogical = append(targetLogical, p)
+		}
+	}
+	sort.Strings(targetLogical)
+	readAll := func(base string, paths []string, phys bool) string {
+		var b strings.Builder
+		for _, p := range paths {
+			if phys {
+				p = physical(layout, p)
+			}
+			data, _ := os.ReadFile(filepath.Join(base, filepath.FromSlash(p)))
+			b.Write(data)
+		}
+		return b.String()
+	}
+	sources := readAll(dir, targetLogical, true)
+
+	cmds := append(append([]string(nil), commands...), outputModeCommands...)
+	formatRuns := map[string]map[string]formatRun{} // command -> format -> run
+	for _, cmd := range cmds {
+		if isFormatCommand(cmd) && sh.Kind == "pkgfiles" {
+			continue // `buf format` does not accept include_package_files (an operational error, see cliOperational)
+		}
+		want := expect(job.set, cmd, sh, layout)
 		fmts := formats
-		if r.Quick() && (cmd == "format" || cmd == "format-d") {
+		switch {
+		case r.Quick() && (cmd == "format" || cmd == "format-d" || cmd == "build-o"):
 			// --error-format has no influence on buf format; quick runs two of the five values
 			fmts = formats[:2]
-		}
-		if cmd == "lint" {
+		case r.Quick() && isFormatCommand(cmd):
+			fmts = formats[:1]
+		case cmd == "lint" && layout == "single":
 			fmts = append(append([]string(nil), formats...), "config-ignore-yaml")
 		}
+		if !base && r.Quick() && isFormatCommand(cmd) {
+			fmts = formats[:1]
+		}
+		// where -o writes to
+		sp.out = filepath.Join(root, "out-"+cmd)
+		switch {
+		case cmd == "build-o":
+			sp.out += ".binpb"
+		case sh.Kind == "file":
+			sp.out += ".proto"
+		}
 		results := map[string]bufx.CLIResult{}
+		runs := map[string]formatRun{}
 		mk := func(format, note string) cliCase {
 			res := results[format]
-			return cliCase{Workspace: ids, Dir: job.dirName, Files: files, Command: cmd, Args: argsFor(cmd, dir, against, format), Format: format, Exit: res.ExitCode, Stdout: res.Stdout, Stderr: res.Stderr, Note: note}
+			return cliCase{Workspace: ids, Dir: job.dirName, Shape: sh.ID, Layout: layout, Files: files, Command: cmd, Args: argsForSpec(cmd, sp, format), Format: format, Exit: res.ExitCode, Stdout: res.Stdout, Stderr: res.Stderr, Note: note}
 		}
 		cut := false
 		for _, format := range fmts {
-			res, timedOut := runBuf(ctx, argsFor(cmd, dir, against, format))
+			os.RemoveAll(sp.out)
+			res, timedOut := runBuf(ctx, argsForSpec(cmd, sp, format))
+			run := formatRun{res: res}
+			switch cmd {
+			case "format-w", "format-dw":
+				run.after = readAll(dir, targetLogical, true)
+				// restore the sources for the next run
+				if err := writeFiles(dir, files); err != nil {
+					r.Incomplete("scratch: " + err.Error())
+					return
+				}
+			case "format-o", "format-do":
+				if sh.Kind == "file" {
+					data, _ := os.ReadFile(sp.out)
+					run.after = string(data)
+				} else {
+					run.after = readAll(sp.out, targetLogical, false)
+				}
+			case "build-o":
+				if info, err := os.Stat(sp.out); err == nil && info.Size() > 0 {
+					st.buildOutputWritten.Add(1)
+				} else if res.ExitCode == 0 && !timedOut {
+					results[format] = res
+					r.Violate("cli/exit-0-but-no-image/build-o", "buf build -o exits 0 but wrote no image", mk(format, ""))
+				}
+			}
 			if timedOut {
 				cut = true
 				break
 			}
 			results[format] = res
+			runs[format] = run
 			r.Eval(1)
 			st.runs.Add(1)
 			st.count(cmd + "/" + format)
@@ -363,13 +613,16 @@ func runWorkspace(ctx context.Context, r *evid.Run, st *cliStats, scratch string
 				st.exit0.Add(1)
 			case 100:
 				st.exit100.Add(1)
+				if want.ViaScanOnly {
+					st.viaScanOnly100.Add(1)
+				}
 			default:
 				st.exitOther.Add(1)
 			}
 			// O2: the plant model
 			if want.Exit >= 0 && res.ExitCode != want.Exit || want.Exit < 0 && res.ExitCode == 0 {
 				r.Violate(fmt.Sprintf("cli/exit-status/%s/want-%d-got-%d", cmd, want.Exit, res.ExitCode),
-					fmt.Sprintf("buf %s on a workspace with planted problems %v exits %d, the plant model says %d", cmd, ids, res.ExitCode, want.Exit), mk(format, ""))
+					fmt.Sprintf("buf %s (input shape %s, layout %s) on a workspace with planted problems %v exits %d, the plant model says %d", cmd, sh.ID, layout, ids, res.ExitCode, want.Exit), mk(format, ""))
 			}
 		}
 		if cut {
@@ -377,14 +630,14 @@ func runWorkspace(ctx context.Context, r *evid.Run, st *cliStats, scratch string
 			r.Incomplete("a CLI run was cut by a deadline (machine load); that (workspace, command) was not judged")
 			continue
 		}
-		switch cmd {
-		case "format", "format-d":
-			checkFormatCommand(r, st, cmd, job, dir, files, results, mk)
+		if isFormatCommand(cmd) {
+			formatRuns[cmd] = runs
+			checkFormatCommand(r, st, cmd, job, dir, sources, targetLogical, runs, mk)
 			continue
 		}
 		// O1: exit status vs what was printed, per format
 		stream := func(res bufx.CLIResult) (diag, other string) {
-			if cmd == "build" {
+			if cmd == "build" || cmd == "build-o" {
 				return res.Stderr, res.Stdout
 			}
 			return res.Stdout, res.Stderr
@@ -442,7 +695,7 @@ func runWorkspace(ctx context.Context, r *evid.Run, st *cliStats, scratch string
 				if res.Stderr == "" {
 					r.Violate("cli/error-exit-without-message/"+cmd, fmt.Sprintf("buf %s exits %d without a message on stderr", cmd, res.ExitCode), mk(format, ""))
 				}
-				if cmd != "build" && res.Stdout != "" {
+				if cmd != "build" && cmd != "build-o" && res.Stdout != "" {
 					r.Violate("cli/error-exit-with-annotations/"+cmd, fmt.Sprintf("buf %s exits %d (not 100) but printed to stdout", cmd, res.ExitCode), mk(format, ""))
 				}
 				continue
@@ -493,6 +746,15 @@ func runWorkspace(ctx context.Context, r *evid.Run, st *cliStats, scratch string
 			}
 		}
 	}
+	checkFormatModes(r, st, job, formatRuns, func(cmd, format string) cliCase {
+		res := formatRuns[cmd][format].res
+		spc := sp
+		spc.out = filepath.Join(root, "out-"+cmd)
+		if sh.Kind == "file" {
+			spc.out += ".proto"
+		}
+		return cliCase{Workspace: ids, Dir: job.dirName, Shape: sh.ID, Layout: layout, Files: files, Command: cmd, Args: argsForSpec(cmd, spc, format), Format: format, Exit: res.ExitCode, Stdout: res.Stdout, Stderr: res.Stderr}
+	})
 }
 
 func checkConfigIgnoreYAML(r *evid.Run, st *cliStats, dir string, truth []ann, out, textOut string, mk func(format, note string) cliCase) {
@@ -531,63 +793,71 @@ func checkConfigIgnoreYAML(r *evid.Run, st *cliStats, dir string, truth []ann, o
 	}
 }
 
-// checkFormatCommand: `buf format --exit-code [-d]`. Independent observation of "there is a difference":
-// without -d stdout is the formatted content of every file in path order; it differs from the sources
-// exactly when a file is not formatted. With -d stdout is the diff.
-func checkFormatCommand(r *evid.Run, st *cliStats, cmd string, job wsJob, dir string, files map[string]string, results map[string]bufx.CLIResult, mk func(format, note string) cliCase) {
-	var protoPaths []string
-	for p := range files {
-		if strings.HasSuffix(p, ".proto") {
-			protoPaths = append(protoPaths, p)
-		}
-	}
-	sort.Strings(protoPaths)
-	var sources strings.Builder
-	for _, p := range protoPaths {
-		sources.WriteString(files[p])
-	}
-	first := results[formats[0]]
+// checkFormatCommand: `buf format --exit-code` in one output mode. Independent observation of "there is a
+// difference", per mode: plain: stdout is the formatted content of every target file in path order, it differs
+// from the sources exactly when a file is not formatted; -d: stdout is the diff; -w: the sources on disk after
+// the run differ from the sources before it; -o: what was written to the output location differs from the sources.
+func checkFormatCommand(r *evid.Run, st *cliStats, cmd string, job wsJob, dir, sources string, targetLogical []string, runs map[string]formatRun, mk func(format, note string) cliCase) {
+	first := runs[formats[0]]
+	printsDiff := cmd == "format-d" || cmd == "format-dw" || cmd == "format-do"
 	for _, format := range formats {
-		res, ok := results[format]
+		run, ok := runs[format]
 		if !ok {
 			continue
 		}
+		res := run.res
 		masked := diffStamp.ReplaceAllString(res.Stdout, "")
-		if res.ExitCode != first.ExitCode || masked != diffStamp.ReplaceAllString(first.Stdout, "") {
+		if res.ExitCode != first.res.ExitCode || masked != diffStamp.ReplaceAllString(first.res.Stdout, "") || run.after != first.after {
 			r.Violate("cli/format-depends-on-error-format/"+cmd, fmt.Sprintf("buf format result differs between --error-format %s and %s", format, formats[0]), mk(format, ""))
 			continue
 		}
 		var differs bool
-		if cmd == "format" {
-			differs = res.Stdout != sources.String()
-		} else {
+		switch cmd {
+		case "format":
+			differs = res.Stdout != sources
+		case "format-d":
 			differs = res.Stdout != ""
+		default:
+			differs = run.after != sources
 		}
 		switch res.ExitCode {
 		case 0:
 			st.formatClean.Add(1)
-			if differs || res.Stderr != "" {
-				r.Violate("cli/exit-0-but-output/"+cmd, "buf format --exit-code exits 0 although it reported a difference or printed a message", mk(format, ""))
+			if differs || res.Stderr != "" || cmd != "format" && res.Stdout != "" {
+				r.Violate("cli/exit-0-but-output/"+cmd, "buf format --exit-code exits 0 although it reported a difference (printed, rewrote the sources or wrote different output) or printed a message", mk(format, ""))
 			}
 		case 100:
 			st.formatDiff.Add(1)
+			switch cmd {
+			case "format-w", "format-dw":
+				if differs {
+					st.formatRewrote.Add(1)
+				}
+			case "format-o", "format-do":
+				if differs {
+					st.formatWroteOutput.Add(1)
+				}
+			}
 			if !differs {
 				r.Violate("cli/exit-100-nothing-printed/"+cmd, "buf format --exit-code exits 100 but shows no difference", mk(format, ""))
 			}
 			if res.Stderr != "" {
 				r.Violate("cli/exit-100-extra-output/"+cmd, "buf format --exit-code exits 100 and printed on stderr", mk(format, ""))
 			}
-			if cmd == "format-d" {
+			if printsDiff && cmd != "format-d" && (res.Stdout != "") != differs {
+				r.Violate("cli/format-diff-vs-written/"+cmd, fmt.Sprintf("buf format -d printed a diff: %v, what it wrote differs from the sources: %v", res.Stdout != "", differs), mk(format, ""))
+			}
+			if printsDiff {
 				// every changed file, and only changed files, have a diff header
-				for _, p := range protoPaths {
+				for _, p := range targetLogical {
 					unformatted := false
 					for _, i := range job.set {
 						pl := plants[i]
-						if pl.Kind == "unformatted" && strings.HasPrefix(p, pl.File+"/") {
+						if pl.Kind == "unformatted" && logicalPath[pl.File] == p {
 							unformatted = true
 						}
 					}
-					hasHeader := strings.Contains(res.Stdout, "+++ "+filepath.Join(dir, p)+"\t")
+					hasHeader := strings.Contains(res.Stdout, "+++ "+filepath.Join(dir, physical(job.layout, p))+"\t")
 					if unformatted != hasHeader {
 						r.Violate("cli/format-diff-files", fmt.Sprintf("diff header for %s present=%v, file unformatted=%v", p, hasHeader, unformatted), mk(format, ""))
 					}
@@ -601,6 +871,33 @@ func checkFormatCommand(r *evid.Run, st *cliStats, cmd string, job wsJob, dir st
 			if res.Stdout != "" {
 				r.Violate("cli/error-exit-with-annotations/"+cmd, fmt.Sprintf("buf format exits %d but printed to stdout", res.ExitCode), mk(format, ""))
 			}
+		}
+	}
+}
+
+// checkFormatModes: where the formatted result goes (stdout, a diff, in place, an output location) is not an
+// input of the verdict: every output mode exits with the status of the plain mode, and every mode that prints
+// a diff prints the same diff.
+func checkFormatModes(r *evid.Run, st *cliStats, job wsJob, runs map[string]map[string]formatRun, mk func(cmd, format string) cliCase) {
+	format := formats[0]
+	plain, ok := runs["format"][format]
+	if !ok {
+		return
+	}
+	diff, haveDiff := runs["format-d"][format]
+	for _, cmd := range []string{"format-d", "format-w", "format-dw", "format-o", "format-do"} {
+		run, ok := runs[cmd][format]
+		if !ok {
+			continue
+		}
+		st.formatModesCompared.Add(1)
+		if run.res.ExitCode != plain.res.ExitCode {
+			r.Violate("cli/format-exit-differs-by-output-mode/"+cmd, fmt.Sprintf("buf format --exit-code exits %d, with the switches of %s it exits %d on the same input", plain.res.ExitCode, cmd, run.res.ExitCode), mk(cmd, format))
+			continue
+		}
+		if (cmd == "format-dw" || cmd == "format-do") && haveDiff &&
+			diffStamp.ReplaceAllString(run.res.Stdout, "") != diffStamp.ReplaceAllString(diff.res.Stdout, "") {
+			r.Violate("cli/format-diff-differs-by-output-mode/"+cmd, "buf format -d prints a different diff when it also writes the result", mk(cmd, format))
 		}
 	}
 }
@@ -621,32 +918,59 @@ func cliPlanted(ctx context.Context, r *evid.Run, st *cliStats, scratch string) 
 		sort.Ints(s)
 		return s
 	}
+	baseShape := shapes[0]
 	var jobs []wsJob
-	maxAll := 3
+	maxAll, maxOther := 3, 2
 	if r.Quick() {
-		maxAll = 2
+		maxAll, maxOther = 2, 1
 	}
 	for _, s := range enum.Subsets(len(plants), 0, maxAll) {
-		jobs = append(jobs, wsJob{s, "ws"})
+		jobs = append(jobs, wsJob{s, "ws", baseShape, "single"})
 	}
 	if r.Quick() {
 		// quick: triples only over one plant of each kind
 		sub := pick("L1", "K1", "C1", "M1", "U1")
 		for _, t := range enum.Subsets(len(sub), 3, 3) {
-			jobs = append(jobs, wsJob{[]int{sub[t[0]], sub[t[1]], sub[t[2]]}, "ws"})
+			jobs = append(jobs, wsJob{[]int{sub[t[0]], sub[t[1]], sub[t[2]]}, "ws", baseShape, "single"})
 		}
 	}
 	hostileSets := [][]int{pick("L1", "L2"), pick("K1", "K3"), pick("C1"), pick("M1", "U1")}
 	if r.Quick() {
 		hostileSets = hostileSets[:2]
 	}
+	var pkgFilesA shape
+	for _, sh := range shapes {
+		if sh.ID == "file-a+" {
+			pkgFilesA = sh
+		}
+	}
 	for _, d := range dirNames[1:] {
 		for _, s := range hostileSets {
-			jobs = append(jobs, wsJob{s, d})
+			jobs = append(jobs, wsJob{s, d, baseShape, "single"})
 		}
+		// an annotation produced by the package scan (its file name is resolved by other code than the compiler's)
+		jobs = append(jobs, wsJob{pick("S3"), d, pkgFilesA, "single"})
+	}
+	// every other (input shape, layout) x every subset of <= maxOther plants
+	for _, layout := range layouts {
+		for _, sh := range shapes {
+			if sh.ID == baseShape.ID && layout == "single" {
+				continue
+			}
+			for _, s := range enum.Subsets(len(plants), 0, maxOther) {
+				jobs = append(jobs, wsJob{s, "ws", sh, layout})
+			}
+		}
+	}
+	var shapeIDs []string
+	for _, sh := range shapes {
+		shapeIDs = append(shapeIDs, sh.ID)
 	}
 	r.Set("B_plants", plants)
 	r.Set("B_dir_names", dirNames)
+	r.Set("B_input_shapes", shapeIDs)
+	r.Set("B_layouts", layouts)
+	r.Set("B_commands", append(append([]string(nil), commands...), outputModeCommands...))
 	r.Set("B_workspace_jobs", len(jobs))
 	// the model's premise: the unplanted workspace is clean for every command (checked by the first job)
 	r.ParallelFor(len(jobs), 0, func(i int) {
